@@ -1,14 +1,32 @@
 """C02  No inverter or battery group is commanded outside its power bounds — cap/guard discipline.
 
-  C02.CAP    every increment of an allocation cell in the greedy top-up is min(upper_bound - power, …);
-             cells are created with upper_bound = min(Σ inverter incl, battery incl) and
-             power = max(battery excl, min_i inverter excl).
-  C02.INV    in the per-inverter split a non-zero store is guarded by excl[i] <= remaining and its
-             value is min(incl[i], remaining); all other paths store 0.
-  C02.AVAIL  available SoC is max(0, upper - soc) / max(0, soc - lower) and every non-zero
-             allocation to an inverter set is control-dependent on a test of *that set's own*
-             availability ratio.
-  C02.ADM    the request admission check precedes the distribution on every path.
+Analysed: `_distribution_algorithm/_battery_distribution_algorithm.py` (BatteryDistributionAlgorithm,
+AggregatedBatteryData) and `_component_managers/_battery_manager.py` (admission).  Every rule is decided
+per symbolic path of a function region (top level / loop body; helpers spliced in, locals substituted,
+conditions atomic and canonical — see `_c02_util.py`), with the bound tables / headroom table / ledgers
+bound by dataflow, so renamed locals and private parameters, introduced or inlined locals, `+=` vs
+`x = x + e`, flipped comparisons, De Morgan, early `continue` vs if/else, extracted helpers, keyword
+vs positional arguments and reordered independent statements do not matter.
+
+  C02.CAP    every change of a cell's power in the greedy top-up has the shape
+             rest + min(.., cap - rest, ..) with cap = that cell's upper_bound (no new cells, no cap
+             rewritten); cells are created in the loop over the availability records with
+             upper_bound = min(Σ_i incl[inverter i], incl[battery]) and power = min_power of the loop
+             element; min_power = max(excl[battery], min_i excl[inverter_i]) over the record's own ids.
+  C02.INV    in the per-inverter split every store into the returned set-point table is zero, or the whole
+             allocation under `len(set) == 1`, or min(incl[i], remaining) on a path that established
+             excl[i] <= remaining, where `remaining` is reduced by exactly the stored value.
+  C02.AVAIL  the headroom table handed to _distribute_power is written with max(0, upper - soc) /
+             max(0, soc - lower) of the keyed battery; the ratio is k * pow(headroom[own battery], exponent);
+             every non-zero cell creation and every top-up happens on a path that established that the
+             set's own ratio / allocation is not zero.
+  C02.BOOK   per path of the reservation loops the distributed-power ledger changes by what the cells
+             receive; deficit covering moves reserve from the donor's entry to the deficit.
+  C02.SOCAGG a group's SoC and both SoC limits are the same aggregate of the batteries' values.
+  C02.ADM    the admission check precedes the distribution on every path, its verdict is honoured, both see
+             the same data; whatever it admits is outside the exclusion zone / inside the inclusion bounds
+             (order domain); the enforced exclusion bound dominates Σ_g min_power_g.
+  C02.PURE   the algorithm writes no instance state.
 The numeric range of the proportional shares is not decided.
 """
 from __future__ import annotations
@@ -236,11 +254,11 @@ def check_inv(run: Run, prog: Program) -> None:
     run.analysed(fn.qual)
     incl, excl = roles.mip["incl"], roles.mip["excl"]
     outs = set()
-    for r in body_walk(fn.node):
-        if isinstance(r, ast.Return):
-            if not (isinstance(r.value, ast.Tuple) and r.value.elts and isinstance(r.value.elts[0], ast.Name)):
-                raise AnalysisError(f"{fn.qual}: result is not (set-point table, undistributed): {u(r)}")
-            outs.add(r.value.elts[0].id)
+    for st in body_walk(fn.node):
+        if isinstance(st, ast.Return):
+            if not (isinstance(st.value, ast.Tuple) and st.value.elts and isinstance(st.value.elts[0], ast.Name)):
+                raise AnalysisError(f"{fn.qual}: result is not (set-point table, undistributed): {u(st)}")
+            outs.add(st.value.elts[0].id)
     if len(outs) != 1:
         raise AnalysisError(f"{fn.qual}: set-point table not identified from the returns ({sorted(outs)})")
     out = next(iter(outs))
@@ -352,6 +370,202 @@ def check_avail(run: Run, prog: Program) -> None:
                   "(ratio 0) that is not last in the order is still charged/discharged",
                   node=at(e.lineno), file=dp.file, path=p.describe(),
                   instance=f"{dp.qual}: non-zero allocation depends on the loop element's own ratio")
+
+
+# --------------------------------------------------------------------------------------------- BOOK
+def _delta(te: TermEval, p: Any, name: str) -> Poly:
+    """Change of the local `name` along path `p` of a loop body (zero when it is not rebound)."""
+    return te.ev(p.env[name]) - Poly.atom(name) if name in p.env else Poly()
+
+
+def check_book(run: Run, prog: Program) -> None:
+    """Bookkeeping of the reservation in _distribute_power (what the remainder handed to the top-up is
+    computed from).  A wrong book makes the remainder negative; the top-up then takes power back from
+    the first group, which ends below its minimum power, i.e. inside its exclusion zone.
+
+      (a) per path of every loop body: the change of the distributed-power ledger equals the power the
+          allocation cells received on that path (a group that is skipped books nothing);
+      (b) per path of the deficit covering: what the deficit being covered gains is exactly what the
+          entries of the reserve table lose (the entry reduced is the donor's)."""
+    import re
+
+    dp = prep(prog, f"{BDA}._distribute_power")
+    run.analysed(dp.qual)
+    pf = fields_of(prog, f"{MOD}:_Power")
+    regs = regions(dp.node)
+    te = TermEval()
+    # the ledger: the remainder handed to the top-up is `<request parameter> - <ledger after the loops>`
+    grp = _own_params(prog.func(f"{BDA}._greedy_distribute_remaining_power"))
+    ledgers: set[str] = set()
+    for _r, _p, e in all_calls(regs, "self._greedy_distribute_remaining_power"):
+        for a in positional(e.node, grp).values():  # type: ignore[arg-type]
+            poly = te.ev(a)
+            pos = [m for m, c in poly.terms.items() if c == 1]
+            neg = [m for m, c in poly.terms.items() if c == -1]
+            if len(poly.terms) == 2 and len(pos) == 1 and len(neg) == 1 and len(pos[0]) == 1 and len(neg[0]) == 1 \
+                    and pos[0][0][0] in _own_params(dp):
+                m = re.fullmatch(r"<(\w+)@loop\d+>", neg[0][0][0])
+                if m and neg[0][0][1] == 1:
+                    ledgers.add(m.group(1))
+    if len(ledgers) != 1:
+        raise AnalysisError(f"{dp.qual}: the remainder handed to the top-up is not `request - ledger` "
+                            f"(ledger candidates {sorted(ledgers)})")
+    ledger = next(iter(ledgers))
+
+    def cell_gain(p: Any) -> tuple[Poly, list[tuple[str, Poly]]]:
+        total, incs = Poly(), []
+        for e in p.effects:
+            if e.kind == "call" and callee(e.node) == "_Power":
+                a = ctor_args(e.node, pf, dp.qual)
+                if "power" not in a:
+                    raise AnalysisError(f"{dp.qual}: line {e.lineno}: _Power(...) without power")
+                total = total + te.ev(a["power"])
+        for _e, tgt, val in writes(p, lambda t, _v: isinstance(t, ast.Attribute) and t.attr == "power"):
+            d = te.ev(val) - Poly.atom(u(tgt))
+            total = total + d
+            incs.append((u(tgt.value), d))  # type: ignore[attr-defined]
+        return total, incs
+
+    loops = [r for r in regs if r.kind != "top"]
+    for p, _st in regs[0].paths:
+        if not cell_gain(p)[0].is_zero():
+            raise AnalysisError(f"{dp.qual}: allocation cells receive power outside the loops")
+    # (a)
+    reserve: set[str] = set()
+    alloc: list[Region] = []
+    k = 0
+    for r in sorted(loops, key=lambda r: getattr(r.loop, "lineno", 0)):
+        touched, ok, bad = False, True, None
+        for p, _st in r.paths:
+            gain, incs = cell_gain(p)
+            booked = _delta(te, p, ledger)
+            if gain.is_zero() and booked.is_zero():
+                continue
+            touched = True
+            if gain != booked:
+                ok, bad = False, bad or p
+            for cell, d in incs:
+                for key, val in r.cell_pairs():
+                    it = r.loop.iter  # type: ignore[union-attr]
+                    if d == Poly.atom(val) and isinstance(it, ast.Call) and isinstance(it.func, ast.Attribute) \
+                            and isinstance(it.func.value, ast.Name):
+                        reserve.add(it.func.value.id)
+            if any(e.kind == "call" and callee(e.node) == "_Power" for e in p.effects):
+                if r not in alloc:
+                    alloc.append(r)
+        if not touched:
+            continue
+        k += 1
+        run.check(ok, "C02.BOOK", dp.qual, f"loop at line {getattr(r.loop, 'lineno', '?')}: {ledger} vs cells",
+                  f"on a path through this loop body the amount booked into `{ledger}` differs from the power "
+                  "the allocation cells receive (e.g. a group that is skipped for lack of SoC headroom is "
+                  "booked with its minimum power): the remainder handed to the top-up is wrong, a negative "
+                  "remainder is taken back from the first group, which ends inside its exclusion zone",
+                  node=at(getattr(r.loop, "lineno", 0)), file=dp.file, path=bad.describe() if bad else None,
+                  instance=f"{dp.qual}: loop #{k} books exactly what its cells receive")
+    # (b)
+    if len(reserve) != 1:
+        raise AnalysisError(f"{dp.qual}: the reserve table (whose entries are added to the cells and booked) "
+                            f"was not identified: {sorted(reserve)}")
+    res = next(iter(reserve))
+    n = 0
+    for r in loops:
+        if r in alloc:
+            continue
+        paths = [(p, writes(p, lambda t, _v: _sub(t, res))) for p, _st in r.paths]
+        if not any(w for _p, w in paths):
+            continue
+        q: Region | None = r
+        covered = None
+        while q is not None and covered is None:
+            if q.kind == "loop" and isinstance(q.loop, (ast.For, ast.AsyncFor)) and q.cell_pairs():
+                covered = q.cell_pairs()[0][1]
+            q = q.parent
+        if covered is None:
+            raise AnalysisError(f"{dp.qual}: line {getattr(r.loop, 'lineno', '?')}: the reserve table is changed "
+                                "outside a loop over the deficits")
+        ok, bad = True, None
+        for p, ws in paths:
+            moved = _delta(te, p, covered)
+            for _e, tgt, val in ws:
+                moved = moved + te.ev(val) - Poly.atom(u(tgt))
+            if not moved.is_zero():
+                ok, bad = False, bad or p
+        n += 1
+        run.check(ok, "C02.BOOK", dp.qual, f"loop at line {getattr(r.loop, 'lineno', '?')}: {res} vs {covered}",
+                  f"deficit covering: on a path the change of `{covered}` is not the negated change of the "
+                  f"entries of `{res}` (e.g. the entry that is zeroed is not the donor's): reserve is counted "
+                  "twice, more than the request is handed out and the top-up takes the difference back from "
+                  "the first group, which ends inside its exclusion zone",
+                  node=at(getattr(r.loop, "lineno", 0)), file=dp.file, path=bad.describe() if bad else None,
+                  instance=f"{dp.qual}: deficit covering #{n} moves reserve from the donor to the deficit")
+    if n < 1:
+        raise AnalysisError(f"{dp.qual}: no deficit covering over `{res}` found")
+
+
+# --------------------------------------------------------------------------------------------- SOCAGG
+class _Abstract(ast.NodeTransformer):
+    """Replace the aggregated field by a placeholder and name comprehension variables by position."""
+
+    def __init__(self, fld: str) -> None:
+        self.fld = fld
+        self.ren: dict[str, str] = {}
+
+    def _comp(self, node: Any) -> ast.AST:
+        for g in node.generators:
+            for n in ast.walk(g.target):
+                if isinstance(n, ast.Name):
+                    self.ren.setdefault(n.id, f"v{len(self.ren)}")
+        return self.generic_visit(node)
+
+    visit_GeneratorExp = visit_ListComp = visit_SetComp = visit_DictComp = _comp  # noqa: N815
+
+    def visit_Lambda(self, node: ast.Lambda) -> ast.AST:  # noqa: N802
+        for a in node.args.args:
+            self.ren.setdefault(a.arg, f"v{len(self.ren)}")
+            a.arg = self.ren[a.arg]
+        return self.generic_visit(node)
+
+    def visit_Name(self, node: ast.Name) -> ast.AST:  # noqa: N802
+        return ast.Name(id=self.ren.get(node.id, node.id), ctx=node.ctx)
+
+    def visit_Attribute(self, node: ast.Attribute) -> ast.AST:  # noqa: N802
+        self.generic_visit(node)
+        if node.attr == self.fld and u(node.value) != "self":
+            node.attr = "FIELD"
+        return node
+
+
+def check_soc_agg(run: Run, prog: Program) -> None:
+    """The SoC of a battery group and its two SoC limits are the same aggregate of the batteries' values
+    (same weights): only then `limit - soc` is the weighted sum of the batteries' own headrooms, and a
+    group whose batteries are all at their limit has headroom zero."""
+    import copy
+
+    fn = prep(prog, f"{MOD}:AggregatedBatteryData.__init__")
+    run.analysed(fn.qual)
+    fields = ("soc", "soc_upper_bound", "soc_lower_bound")
+    n = 0
+    for p, _st in regions(fn.node)[0].paths:
+        last: dict[str, ast.AST] = {}
+        for _e, tgt, val in writes(p, lambda t, _v: isinstance(t, ast.Attribute) and u(t.value) == "self"
+                                   and t.attr in fields):
+            last[tgt.attr] = val  # type: ignore[attr-defined]
+        if not last:
+            continue
+        forms = {f: repr(TermEval().ev(_Abstract(f).visit(copy.deepcopy(v)))) for f, v in last.items()}
+        ok = len(last) == len(fields) and len(set(forms.values())) == 1
+        if any("FIELD" in x for x in forms.values()):
+            n += 1
+        run.check(ok, "C02.SOCAGG", fn.qual, "; ".join(f"{f} = {u(v)}" for f, v in sorted(last.items())),
+                  "the aggregated SoC and the aggregated SoC limits of a battery group are not the same "
+                  "aggregate of the batteries' values (different weights or a different field): "
+                  "`soc_upper_bound - soc` / `soc - soc_lower_bound` can stay positive although every battery "
+                  "of the group is at its own limit, so the group keeps a share",
+                  node=at(p.lineno), file=fn.file, path=p.describe(),
+                  instance=f"{fn.qual}: soc and both limits aggregated alike ({'weighted' if 'FIELD' in next(iter(forms.values())) else 'constant'} path)")
+    if n < 1:
+        raise AnalysisError(f"{fn.qual}: no path aggregates soc / soc_upper_bound / soc_lower_bound from the batteries")
 
 
 # --------------------------------------------------------------------------------------------- ADM
@@ -476,15 +690,25 @@ def check_adm_order(run: Run, prog: Program) -> None:
     if len(outs) < 10:
         raise AnalysisError(f"{fn.qual}: only {len(outs)} abstract paths")
     # the bounds used are the aggregated ones of the same data; the power compared is the request's
-    params = _own_params(fn)
-    if len(params) < 2:
-        raise AnalysisError(f"{fn.qual}: (request, pairs) parameters not found")
-    bcalls = find_calls(fn.node, lambda c: method_call(c, "self", "_get_bounds"))
-    gb = _own_params(prog.func(f"{BM}._get_bounds"))
-    wcalls = find_calls(fn.node, lambda c: method_call(c, None, "as_watts"))
-    ok = bool(bcalls) and bool(wcalls) and bool(gb) and all(
-        u(positional(c, gb).get(gb[0])) == params[1] for c in bcalls) and all(
-        u(c.func.value) == f"{params[0]}.power" for c in wcalls)  # type: ignore[attr-defined]
+    try:
+        from ._admission import bounds_from_pairs, reached_bounds
+    except ImportError:             # older _admission: decide it on the call sites
+        bounds_from_pairs = reached_bounds = None  # type: ignore[assignment]
+    if reached_bounds is not None:
+        # interpreter log: every `_get_bounds(x)` evaluated on a path received the pairs parameter object
+        # (followed through helpers / keywords); the power atom of the run originates from request.power
+        reached = [o for o in outs if reached_bounds(o)]
+        ok = bool(reached) and all(bounds_from_pairs(o) for o in reached)
+    else:
+        params = _own_params(fn)
+        if len(params) < 2:
+            raise AnalysisError(f"{fn.qual}: (request, pairs) parameters not found")
+        bcalls = find_calls(fn.node, lambda c: method_call(c, "self", "_get_bounds"))
+        gb = _own_params(prog.func(f"{BM}._get_bounds"))
+        wcalls = find_calls(fn.node, lambda c: method_call(c, None, "as_watts"))
+        ok = bool(bcalls) and bool(wcalls) and bool(gb) and all(
+            u(positional(c, gb).get(gb[0])) == params[1] for c in bcalls) and all(
+            u(c.func.value) == f"{params[0]}.power" for c in wcalls)  # type: ignore[attr-defined]
     run.check(ok, "C02.ADM", fn.qual, "bounds from _get_bounds(pairs_data); power from the request",
               "the admission check does not compare the request's power with the bounds aggregated from "
               "the same component data", node=fn.node, file=fn.file)
@@ -555,6 +779,16 @@ CONTROLS = [
      "        error = self._check_request(request, pairs_data)\n        if error:\n            return error\n",
      "        error = None\n        if not request.adjust_power:\n            error = self._check_request(request, pairs_data)\n        if error:\n            return error\n",
      "C02.ADM"),
+    ("a group skipped for lack of headroom is booked with its minimum power", MOD,
+     "                    power=0.0,\n                )\n                continue\n",
+     "                    power=0.0,\n                )\n                distributed_power += ratio_data.min_power\n"
+     "                continue\n", "C02.BOOK"),
+    ("deficit covering zeroes the entry of the group in deficit instead of the donor's", MOD,
+     "                    excess_reserved[largest.inverter_ids] = 0.0\n",
+     "                    excess_reserved[inverter_ids] = 0.0\n", "C02.BOOK"),
+    ("upper SoC limit aggregated without the capacity weights", MOD,
+     "                sum(b.soc_upper_bound * b.capacity for b in batteries) / self.capacity\n",
+     "                sum(b.soc_upper_bound for b in batteries) / len(batteries)\n", "C02.SOCAGG"),
 ]
 
 
@@ -562,10 +796,29 @@ def run_rules(run: Run, prog: Program) -> None:
     check_cap(run, prog)
     check_inv(run, prog)
     check_avail(run, prog)
+    check_book(run, prog)
+    check_soc_agg(run, prog)
     check_adm(run, prog)
     check_adm_min(run, prog)
     check_adm_order(run, prog)
     check_pure(run, prog)
+
+
+def _rules_for(rule_id: str):
+    """The rule functions that can report `rule_id` (a control re-runs only those)."""
+    table = {
+        "C02.CAP": (check_cap,), "C02.INV": (check_inv,), "C02.AVAIL": (check_cap, check_avail),
+        "C02.BOOK": (check_book,), "C02.SOCAGG": (check_soc_agg,),
+        "C02.ADM": (check_adm, check_adm_min, check_adm_order), "C02.PURE": (check_pure,),
+    }
+    fns = table.get(rule_id)
+    if fns is None:
+        return run_rules
+
+    def run_selected(run: Run, prog: Program) -> None:
+        for f in fns:
+            f(run, prog)
+    return run_selected
 
 
 def check(run: Run, prog: Program, tier: str) -> str:
@@ -578,15 +831,20 @@ def check(run: Run, prog: Program, tier: str) -> str:
     run.rule("C02.ADM", "the admission check dominates the distribution, its error is returned, and (order "
              "domain) whatever it admits is outside the exclusion zone / inside the inclusion bounds")
     run.rule("C02.PURE", "the distribution algorithm writes no instance state outside __init__")
+    run.rule("C02.BOOK", "per path of the reservation loops the distributed-power ledger changes by what the "
+             "cells receive, and deficit covering moves reserve from the donor's entry to the deficit")
+    run.rule("C02.SOCAGG", "a group's SoC and its two SoC limits are the same aggregate of the batteries' values")
     run_rules(run, prog)
     run.floor("C02.CAP", 4)
     run.floor("C02.INV", 4)
     run.floor("C02.AVAIL", 7)
     run.floor("C02.ADM", 12)
     run.floor("C02.PURE", 8)
+    run.floor("C02.BOOK", 3)
+    run.floor("C02.SOCAGG", 1)
     from ..engine.controls import run_controls
 
-    run_controls(run, CONTROLS, run_rules, tier)
+    run_controls(run, CONTROLS, run_rules, tier, select=_rules_for)
     run.undecided("that proportional shares stay between minimum power and the inclusion bound for "
                   "every real input, and group totals after deficit covering (relational numeric "
                   "invariants over dict-indexed cells)")
